@@ -74,7 +74,7 @@ def main(argv=None):
         print(f"CHECKER-ERROR property={prop}")
         return 3
     evidence["wall_s"] = round(time.time() - t0, 2)
-    if not args.only:
+    if not args.only and not os.environ.get("PYVC_NO_EVIDENCE"):
         (ROOT / "evidence").mkdir(exist_ok=True)
         (ROOT / "evidence" / f"{prop}.json").write_text(json.dumps(evidence, indent=1, default=str))
     print(f"{prop}: exit {rc} in {evidence['wall_s']}s; obligations={evidence['coverage']['obligations']} discharged={evidence['coverage']['discharged']}")
@@ -91,7 +91,7 @@ def run_check(prop, info, tier, seed, only, verbose):
     discharge(obs, timeout_ms)
     t_solve = time.time() - t_solve
     known = load_known_findings()
-    violations, undecided, errors, known_hits = [], [], [], []
+    violations, undecided, errors, known_hits, unknowns = [], [], [], [], []
     # --- classify
     for r in reports:
         if r.status == "error":
@@ -114,7 +114,7 @@ def run_check(prop, info, tier, seed, only, verbose):
                 else:
                     violations.append(o)
             else:
-                undecided.append((o.name, f"solver: {o.result} {o.model[:200]}"))
+                unknowns.append(o)
         if r.status == "ok" and n_real == 0:
             errors.append((r.target, "zero obligations generated (vacuous contract)"))
     # --- known findings: the clause must still hold outside the recorded failing region
@@ -137,6 +137,27 @@ def run_check(prop, info, tier, seed, only, verbose):
                 undecided.append((ro.name, f"solver: {ro.result}"))
     # --- replay
     rt = info.get("runtime")
+    rtmod = None
+    if rt is not None:
+        try:
+            rtmod = importlib.import_module(rt)
+        except ImportError:
+            rtmod = None
+    # an obligation the solvers cannot decide is undecided - unless the run-time contract exhibits
+    # a concrete failing input on the real code, in which case it is a violation with a witness
+    for o in unknowns:
+        kf = next((k for k in known if kf_matches(k, o)), None)
+        w = None
+        if rtmod is not None and kf is None:
+            try:
+                w = rtmod.replay(o, seed)
+            except Exception:  # noqa: BLE001
+                w = None
+        if w is not None:
+            o.model = "(solver answer: unknown; violation established by the run-time contract on the real code)\n" + o.model
+            violations.append(o)
+        else:
+            undecided.append((o.name, f"solver: {o.result} {o.model[:200]}"))
     lines = []
     replays = []
     seen_kf = set()
@@ -153,9 +174,9 @@ def run_check(prop, info, tier, seed, only, verbose):
     for (func, kind, label), group in grouped.items():
         o = group[0]
         witness = None
-        if rt is not None:
+        if rtmod is not None:
             try:
-                witness = importlib.import_module(rt).replay(o, seed)
+                witness = rtmod.replay(o, seed)
             except Exception:  # noqa: BLE001
                 witness = None
                 if verbose:
